@@ -18,7 +18,8 @@ if r.returncode != 0:
 try:
     for p in props:
         t0 = time.time()
-        r = subprocess.run(["python3", "/verif/run.py", p, "--tier", tier, "--seed", seed], cwd="/verif", stdout=subprocess.PIPE, stderr=subprocess.PIPE, text=True)
+        env = dict(os.environ, LSV_EVIDENCE_DIR="/verif/out/seed_evidence")   # never overwrite the committed evidence
+        r = subprocess.run(["python3", "/verif/run.py", p, "--tier", tier, "--seed", seed], cwd="/verif", env=env, stdout=subprocess.PIPE, stderr=subprocess.PIPE, text=True)
         viol = [l for l in r.stdout.splitlines() if l.startswith("VIOLATION")]
         summ = [l for l in r.stderr.splitlines() if l.startswith("[" + p)]
         first = [l for l in r.stderr.splitlines() if l.startswith("first violation")]
